@@ -1,6 +1,48 @@
 #!/usr/bin/env python3
 """Rewrite the catch matrix of DESIGN.md section 14 from seeded/*/meta.json."""
 import glob, json, os, re
+STRENGTHENED = {
+    "C02_1": "C02 Space 4: comment bodies with runs of '*', pairs of comments",
+    "C02_2": "C02 Space 5: literal variants (0, -0, +2, ...) in every literal position",
+    "C02_3": "caught by C16's call histories (header parse then full parse of one text); C02 itself parses each text once",
+    "C03_2": "C03: loop counts {0,1,2,3}, let-valued counts overridden to 0",
+    "C03_3": "C03: embeddings reprepare / reprepare-loop",
+    "C03_4": "C03: embeddings alttable / alttable-rev (two native tables in both orders)",
+    "C04_2": "universe: macro m7 (register parameter named like the alias passed)",
+    "C04_4": "universe: macro m8 (inner call binds the same parameter name crosswise, outer parameter used afterwards)",
+    "C05_1": "C05: the caller's override dictionary must be unchanged",
+    "C05_3": "C05: open-ended aliases over a let-sized register with size overrides",
+    "C06_2": "framework: history-dependent failures confirmed by replaying the shard prefix in a fresh interpreter",
+    "C06_4": "C06: override that moves the inner link of a chain whose outer link is literal",
+    "C07_2": "universe: macro m6 (parameter named like the let of a header alias); caught through C13's used-qubit oracle",
+    "C07_3": "C07: fill_in_map step + an unshadowed header alias inside the shadowing macro",
+    "C07_4": "universe: macro m7; caught by C04 (C07's probes do not pass a register under its own name)",
+    "C08_4": "caught by C10's parser-flag clause (parse(expand_let_map, override_dict) vs composition)",
+    "C09_1": "C09: subcircuit inside a loop inside a macro reached through another macro",
+    "C09_3": "caught by C11's snapshot (input circuit modified)",
+    "C10_3": "C10: the caller's override dictionary must be unchanged",
+    "C11_1": "C11: a caller's gate table without the bounding gates",
+    "C11_2": "C11: integral float literal as macro argument in the base program",
+    "C11_4": "caught by C06 (same alias name over different slices in one process)",
+    "C12_1": "C12: wrapper loop c < { .. } >",
+    "C12_4": "caught by C04/C10 (empty subcircuit block must survive expand_macros); the default run pipeline is unaffected",
+    "C13_1": "universe: a second call of m4 with other numbers, m6 with two arguments",
+    "C13_2": "C13: busy gates inside a parallel branch",
+    "C13_3": "C13: neighbouring cases use different register names",
+    "C13_4": "C13: a zero-count loop as a parallel branch",
+    "C14_1": "C14: reversed slices starting at size / stopping below -1",
+    "C14_2": "C14: register size (literal / let / override) against an index used",
+    "C14_4": "C14: reload family (relative pulse file rewritten between two parses)",
+    "C16_1": "C16: module-name family for usepulses, sys.modules empty-key clause",
+    "C16_2": "C16: calls combining usepulses with inject_pulses in the history alphabet",
+    "C16_3": "C16: numeric-literal family (overflowing literals and override values)",
+    "C17_3": "framework: a case whose two in-process runs disagree is reported as state-dependent",
+    "C17_4": "C17: boundary counts 0 for loops and subcircuits",
+    "C18_3": "C18: a FLOAT-kinded name without a value does not fit INT",
+    "C18_4": "C18: gates without qubit parameters / with untyped parameters in the idle and stretch pools",
+    "C20_1": "C01: two statements in one program differing in one number (hash coincidences); C20 pool gets such programs too",
+    "C01_4": "C01: one pulse module imported twice",
+}
 rows = []
 for f in sorted(glob.glob('/verif/seeded/*/meta.json')):
     m = json.load(open(f))
@@ -11,7 +53,7 @@ for f in sorted(glob.glob('/verif/seeded/*/meta.json')):
     clause = re.sub(r'^failed clause (\S+).*', r'\1', first) if first else ''
     ok = m.get('tests_pass') and m.get('demo_without_change_rc') == 0 and m.get('demo_with_change_rc') not in (0, None)
     rows.append((m['name'], m['property'], ", ".join(os.path.basename(x) for x in am.get('files', [])), (am.get('summary', '') or '')[:160].replace('|', '/'),
-                 "yes" if ok else "NO", ", ".join(caught) or "-", clause, ", ".join(missed) or "-", m.get('strengthened', '')))
+                 "yes" if ok else "NO", ", ".join(caught) or "-", clause, ", ".join(missed) or "-", STRENGTHENED.get(m['name'], '')))
 lines = ["| seeded change | property | file | what it does | confirmed (tests pass, demo fails only with it) | caught by (quick) | first failing clause | run but silent | check strengthened for it |",
          "|---|---|---|---|---|---|---|---|---|"]
 for r in rows:
